@@ -8,6 +8,7 @@ import GldapModel.Runtime.Writer
 import GldapModel.Runtime.ConnLoop
 import GldapModel.Directory.Store
 import GldapModel.Spec.ClientEncode
+import GldapModel.Gldap.Session
 /-! `gmodel`: one line in, one line out. The Go harness feeds the same cases to the real
     gldap and to this driver and diffs the two output streams. -/
 open Ber Gldap Driver
@@ -347,6 +348,59 @@ def doCenc (toks : List String) : String :=
      | _, _ => "bad-input")
   | [] => "bad-input"
 
+
+/-- one scripted response: `<ctor>~<dnhex>~<opts>~<sets>` (fields as in the `resp` stream) -/
+def parseRespSpec (s : String) : Option Session.RespSpec :=
+  match s.splitOn "~" with
+  | [ctor, dn, o, st] => do
+    let d ← unhex dn
+    let c : Session.Ctor ← (match ctor with
+      | "general" => some .general | "bind" => some .bind | "extended" => some .extended
+      | "done" => some .done | "entry" => some (.entry d) | "modify" => some .modify | _ => none)
+    let opts ← (splitNE o ";").mapM parseROpt
+    let sets ← (splitNE st ";").mapM parseRSet
+    pure ⟨c, opts, sets⟩
+  | _ => none
+
+/-- `<script>!<script>!...`, one per registration; a script is `<resp>+<resp>+...` (`.` = writes nothing) -/
+def parseScripts (s : String) : Option (List (List Session.RespSpec)) :=
+  if s == "" then some [] else
+  (s.splitOn "!").mapM fun sc => if sc == "." then some [] else (sc.splitOn "+").mapM parseRespSpec
+
+/-- `<canonical filter node hex>:<decompiled hex | !>,...` -/
+def parseFilterTable (s : String) : Option (List (Bytes × Option Bytes)) :=
+  (splitNE s ",").mapM fun e =>
+    match e.splitOn ":" with
+    | [k, v] => do pure (← unhex k, ← (if v == "!" then some none else (unhex v).map some))
+    | _ => none
+
+def insertSorted (x : String) : List String → List String
+  | [] => [x]
+  | y :: ys => if x ≤ y then x :: y :: ys else y :: insertSorted x ys
+def sortStrings (l : List String) : List String := l.foldr insertSorted []
+
+def renderEnding : Session.Ending → String
+  | .eof => "closed" | .closed => "closed" | .unbind => "unbind" | .crashed => "crashed"
+
+/-- `session <lock|pipe> routes=.. scripts=.. filters=.. in=<hex>`: the whole conversation of one connection -/
+def doSession (mode : String) (regs : List (Reg Nat)) (scripts : List (List Session.RespSpec))
+    (ftab : List (Bytes × Option Bytes)) (input : Bytes) : String :=
+  let cfg : Session.Cfg := { regs := regs, script := fun k => scripts.getD k [] }
+  let run (ext) : List Bytes × Session.Ending × List (Nat × Int) :=
+    let env : Env := { ext := ext, decompile := fun n => (ftab.find? (fun e => e.1 == ser n)).bind (·.2) }
+    let fuel := input.length + 1
+    let r := Session.session env Generated.refusalTable Generated.guards cfg fuel input
+    let calls := (Session.sessionMsgs env Generated.guards fuel input).flatMap (Session.callsFor Generated.refusalTable cfg)
+    (r.1, r.2, calls)
+  let a := run extTrue
+  let b := run extFalse
+  if a != b then "unmodelled" else
+  let frames := a.1.map hex
+  let frames := if mode.startsWith "pipe" then sortStrings frames else frames
+  let calls := a.2.2.map fun c => s!"{c.1}:{c.2}"
+  let calls := if mode.startsWith "pipe" then sortStrings calls else calls
+  s!"end={renderEnding a.2.1} calls={join "," calls} frames={join "," frames}"
+
 def handle (line : String) : String :=
   match (line.splitOn " ").filter (· ≠ "") with
   | ["ber", h] => match unhex h with
@@ -405,6 +459,13 @@ def handle (line : String) : String :=
           (stripPrefix us "users=").bind parseEntries, (stripPrefix gs "groups=").bind parseEntries, stripPrefix ops "ops=" with
     | some ud, some gd, some us, some gs, some ops => doStore ⟨us, gs, ud, gd⟩ (splitNE ops ";")
     | _, _, _, _, _ => "bad-input"
+  | ["session", mode, r, sc, ft, inp] =>
+    match stripPrefix r "routes=", stripPrefix sc "scripts=", stripPrefix ft "filters=", (stripPrefix inp "in=").bind unhex with
+    | some r, some sc, some ft, some input =>
+      (match parseRegs (splitNE r ";"), parseScripts sc, parseFilterTable ft with
+       | some regs, some scripts, some ftab => doSession mode regs scripts ftab input
+       | _, _, _ => "bad-input")
+    | _, _, _, _ => "bad-input"
   | ["behera", g, e, c] =>
     match parseOptNat g, parseOptNat e, parseOptNat c with
     | some g, some e, some c => renderOutcome renderControl (newBehera Generated.beheraErrRange g e c)
